@@ -17,6 +17,7 @@ type absRecipe struct {
 }
 
 type resolverCase struct {
+	Decl   []absRecipe `json:"decl"` // the records of the book file in declaration order (may repeat a heading)
 	Book   []absRecipe `json:"book"`
 	N      int         `json:"n"`
 	Order  []int       `json:"order"`
@@ -30,7 +31,7 @@ func init() {
 
 func maxID(c *resolverCase) int {
 	m := 0
-	for _, r := range c.Book {
+	for _, r := range append(append([]absRecipe{}, c.Book...), c.Decl...) {
 		if r.Name > m {
 			m = r.Name
 		}
